@@ -29,6 +29,7 @@ fn weights() -> Weights {
         (2, DeleteVal),
         (5, Update),
         (4, Upsert),
+        (3, PartialUpsert),
         (6, Compact),
         (5, CreateIndex),
         (2, OptimizeIndices),
